@@ -14,7 +14,7 @@ use crate::ihex;
 use crate::report::{cov, machinery_fail, Report, Scratch, Tier};
 use crate::sut::{self, Outcome};
 
-const SOURCES: [(&str, &str); 15] = [
+const SOURCES: [(&str, &str); 19] = [
     ("code-only", "start_l: ldi r16, 1\n rjmp start_l\n.db \"hi\", 0\n"),
     ("code-and-eeprom", "ldi r16, 2\n.eseg\nee_v: .db 1, 2, 3, 4, 5\n.cseg\nldi r17, ee_v\n"),
     ("eeprom-only", ".eseg\n.dw 0xbeef, 0x1234\n"),
@@ -32,6 +32,11 @@ const SOURCES: [(&str, &str); 15] = [
     ("device-without-eeprom", ".device ATtiny20\nldi r16, 1\n.dseg\nbuf_v: .byte 4\n"),
     ("largest-device-all-memories", ".device ATmega2560\nldi r16, 1\n.dseg\nbuf_w: .byte 100\n.eseg\n.db 1, 2, 3\n"),
     ("data-segment-only", ".dseg\nv_only: .byte 16\n"),
+    // images that are not empty but hold nothing except zero bytes (or 0xff): they are images
+    ("eeprom-all-zero", "ldi r16, 3\n.eseg\nboots_v: .dw 0\nflags_v: .db 0, 0\n"),
+    ("code-all-zero", "nop\nnop\n.dw 0\n.eseg\n.db 7\n"),
+    ("both-all-zero", "nop\n.eseg\n.db 0\n"),
+    ("images-all-ff", ".dw 0xffff, 0xffff\n.eseg\n.db 0xff, 0xff, 0xff\n"),
 ];
 
 #[derive(Clone, Copy, PartialEq, Eq, Debug, PartialOrd, Ord)]
